@@ -81,6 +81,10 @@ func genC16(r *Rand, tier string) *Case {
 		if r.Chance(1, 5) {
 			// a stalled peer: from some write on it no longer reads
 			cc.Faults = []Fault{{Kind: "write-stall", At: r.Range(6, 14)}}
+		} else if r.Chance(1, 5) {
+			// a peer that vanishes: from some write on the transport fails, so a
+			// command in flight ends with an I/O error
+			cc.Faults = []Fault{{Kind: "write-err", At: r.Range(6, 14), Bytes: r.Intn(4)}}
 		}
 		c.Conns = append(c.Conns, cc)
 	}
